@@ -25,7 +25,7 @@ RULE = ("warm/cold differential over recorded call histories: ctor-from-string, 
         "after an option toggle")
 ANCHORS = ['str_to_bitstore', 'tokenparser', 'preprocess_tokens', 'parse_name_length_token', 'parse_single_struct_token',
            'parse_single_token', 'Dtype._new_from_token', 'Dtype._create', 'Options.set_lsb0', 'pack', 'Bits._readlist']
-REQUIRED_OPS = ['ctor', 'fromstring', 'pack', 'unpack', 'readlist', 'dtype', 'array-dtype', 'toggle', 'mutate-earlier']
+REQUIRED_OPS = ['ctor', 'fromstring', 'ctor-kw', 'prop-assign', 'pack', 'unpack', 'readlist', 'dtype', 'array-dtype', 'toggle', 'mutate-earlier']
 MIN_EVALS = {'quick': 2000, 'thorough': 40000}
 PINNED_CACHES = ['str_to_bitstore', '_str_to_bitstore', 'tokenparser', 'preprocess_tokens', 'parse_name_length_token',
                  'parse_single_struct_token', 'parse_single_token', '_new_from_token', '_create']
@@ -59,17 +59,35 @@ def jval(x):
     return x
 
 
-def run_call(c):
-    """Execute one recorded call; returns a JSON-able outcome."""
+def run_call(c, keep=None):
+    """Execute one recorded call; returns a JSON-able outcome.  keep: list that receives created bitstring objects."""
     import bitstring
     from bitstring import Array, Bits, Dtype, pack
     kind = c['kind']
     try:
         if kind == 'ctor':
             r = getattr(bitstring, c['cls'])(c['s'])
+            if keep is not None:
+                keep.append(r)
             return ['ok', r.bin if len(r) else '']
         if kind == 'fromstring':
             r = getattr(bitstring, c['cls']).fromstring(c['s'])
+            if keep is not None:
+                keep.append(r)
+            return ['ok', r.bin if len(r) else '']
+        if kind == 'ctor-kw':
+            kw = {c['name']: c['value']}
+            if c.get('length') is not None:
+                kw['length'] = c['length']
+            r = getattr(bitstring, c['cls'])(**kw)
+            if keep is not None:
+                keep.append(r)
+            return ['ok', r.bin if len(r) else '']
+        if kind == 'prop-assign':
+            r = getattr(bitstring, c['cls'])()
+            setattr(r, c['name'], c['value'])
+            if keep is not None:
+                keep.append(r)
             return ['ok', r.bin if len(r) else '']
         if kind == 'pack':
             r = pack(c['fmt'], *c['vals'], **c['kw'])
@@ -128,7 +146,7 @@ def cold_main():
 
 # ---- key streams -----------------------------------------------------------------------------------------
 def key_class(c):
-    s = c.get('s') or c.get('fmt') or c.get('tok') or ''
+    s = c.get('s') or c.get('fmt') or c.get('tok') or (c.get('value') if isinstance(c.get('value'), str) else '') or c.get('name') or ''
     if isinstance(s, list):
         s = ','.join(map(str, s))
     if re.search(r'mxfp\d*\s*=', s) or (c['kind'] == 'pack' and 'mxfp' in s):
@@ -194,12 +212,30 @@ def gen_history(ctx, n):
             hist.append({'kind': 'mutate-earlier', 'how': rng.choice(['invert', 'append', 'tobitarray-invert', 'clear', 'derive', 'array-data']),
                          'opts': list(opts)})
             continue
-        k = rng.choice(['ctor', 'ctor', 'ctor', 'ctor', 'fromstring', 'pack', 'unpack', 'readlist', 'dtype', 'dtype', 'array-dtype', 'array-dtype', 'find'])
+        k = rng.choice(['ctor', 'ctor', 'ctor', 'ctor', 'fromstring', 'pack', 'pack', 'unpack', 'readlist', 'dtype', 'dtype', 'array-dtype', 'array-dtype', 'find',
+                        'ctor-kw', 'ctor-kw', 'prop-assign'])
         if k in ('ctor', 'fromstring'):
             c = {'kind': k, 'cls': rng.choice(['Bits', 'BitArray', 'ConstBitStream', 'BitStream']), 's': nxt('str', strs)}
         elif k == 'pack':
             f, v, kw = rng.choice(packs)
             c = {'kind': k, 'fmt': f, 'vals': v, 'kw': kw}
+            if rng.random() < 0.3 and not kw:
+                # a list of formats: afterwards each item on its own must still mean what it meant before
+                f2, v2, kw2 = rng.choice([p for p in packs if not p[2]])
+                c = {'kind': k, 'fmt': [f, f2], 'vals': list(v) + list(v2), 'kw': {}}
+        elif k == 'ctor-kw':
+            name, val, ln = rng.choice([('ue', rng.randint(0, 40), None), ('se', rng.randint(-20, 20), None), ('uie', rng.randint(0, 40), None),
+                                        ('sie', rng.randint(-20, 20), None), ('uint', rng.randint(0, 255), 8), ('int', rng.randint(-8, 7), 4),
+                                        ('hex', format(rng.getrandbits(16), '04x'), None), ('float', rng.choice([0.0, -0.0, 1.5, -2.25]), 32),
+                                        ('e4m3mxfp', rng.choice([1.0, 1000.0, -1000.0]), None), ('bin', format(rng.getrandbits(5), '05b'), None),
+                                        ('bool', rng.random() < 0.5, None), ('bfloat', rng.choice([0.0, -0.0, 3.5]), None)])
+            c = {'kind': k, 'cls': rng.choice(['Bits', 'BitArray', 'BitArray', 'ConstBitStream', 'BitStream']), 'name': name, 'value': val, 'length': ln}
+        elif k == 'prop-assign':
+            hot = strs[rng.randrange(12)]          # a key that is revisited often, so that a poisoned cache entry is seen again
+            name, val = rng.choice([('bits', hot), ('bits', hot), ('bits', nxt('str', strs)), ('ue', rng.randint(0, 40)), ('uie', rng.randint(0, 40)),
+                                    ('se', rng.randint(-20, 20)), ('hex', format(rng.getrandbits(16), '04x')), ('uint8', rng.randint(0, 255)),
+                                    ('float32', rng.choice([0.0, -0.0, 1.5]))])
+            c = {'kind': k, 'cls': rng.choice(['BitArray', 'BitStream']), 'name': name, 'value': val}
         elif k in ('unpack', 'readlist'):
             f = nxt('fmt', fmts)
             kw = {}
@@ -242,7 +278,7 @@ def warm_pass(ctx, hist):
             out.append(None)
             if not kept:
                 continue
-            x = kept[ctx.rng.randrange(len(kept))] if not ctx.replaying else kept[-1]
+            x = kept[-1 - min(int(ctx.rng.expovariate(0.5)), len(kept) - 1)] if not ctx.replaying else kept[-1]
             try:
                 how = c['how']
                 if how == 'invert' and isinstance(x, BitArray) and len(x):
@@ -265,15 +301,9 @@ def warm_pass(ctx, hist):
                 pass
             continue
         ctx.op(c['kind'])
-        res = run_call(c)
+        res = run_call(c, kept)
         out.append(res)
-        if c['kind'] in ('ctor', 'fromstring') and res[0] == 'ok':
-            try:
-                cls = getattr(bitstring, c['cls'])
-                kept.append(cls(c['s']) if c['kind'] == 'ctor' else cls.fromstring(c['s']))
-            except Exception:  # noqa: BLE001
-                pass
-            kept = kept[-50:]
+        del kept[:-50]
     set_opts([False, False, 'saturate'])
     return out
 
@@ -301,7 +331,7 @@ def compare(ctx, hist, warm, store_history=True):
     for (i, c), k in zip(calls, cold):
         w = warm[i]
         key = call_key(c)
-        okey = json.dumps(c.get('s') or c.get('tok') or c.get('fmt'))
+        okey = json.dumps(c.get('s') or c.get('tok') or c.get('fmt') or [c.get('name'), c.get('value')])
         kc = key_class(c)
         rel = {'mxfp-token': 2, 'golomb-token': 0}.get(kc)
         seen_vals = first_opts.setdefault(okey, set())
